@@ -23,6 +23,11 @@ theorem path_of_rtg (A : εNFA α σ) {s t : σ} (h : Relation.ReflTransGen (Ste
     obtain ⟨x, hx⟩ := ih
     exact ⟨a :: x, εNFA.IsPath.cons _ _ _ a x ha hx⟩
 
+/-- left extension of reachability, used as a given lemma by the contracts of the backward search
+(`_get_states_leading_to_final`): the SMT side only has reflexivity and right extension -/
+theorem reach_head (A : εNFA α σ) {x y z : σ} (h : Step1 A x y) (hr : Relation.ReflTransGen (Step1 A) y z) :
+    Relation.ReflTransGen (Step1 A) x z := Relation.ReflTransGen.head h hr
+
 /-- `is_empty()`'s postcondition (no final state reachable from a start state) is language emptiness -/
 theorem empty_iff_no_final_reachable (A : εNFA α σ) :
     (∀ x, x ∉ A.accepts) ↔ ¬ ∃ s ∈ A.start, ∃ f ∈ A.accept, Relation.ReflTransGen (Step1 A) s f := by
